@@ -281,11 +281,23 @@ func (fr *frame) loopEnv(h *ssa.BasicBlock, phiVals map[*ssa.Phi]SV, cur *State)
 		}
 		for _, ins := range b.Instrs {
 			dr, ok := ins.(*ssa.DebugRef)
-			if !ok || dr.IsAddr {
+			if !ok {
 				continue
 			}
 			id, ok := dr.Expr.(*ast.Ident)
 			if !ok {
+				continue
+			}
+			if dr.IsAddr {
+				// address-taken local: its name denotes the value currently stored in its cell
+				if al, isAlloc := dr.X.(*ssa.Alloc); isAlloc {
+					if psv, have := fr.env[al]; have {
+						if pb := best[id.Name]; pb == nil || pb.Dominates(b) {
+							best[id.Name] = b
+							env.vars[id.Name] = SV{t: vc.loadLoc(cur, vc.locOf(psv)), typ: derefType(al.Type())}
+						}
+					}
+				}
 				continue
 			}
 			sv, have := fr.env[dr.X]
